@@ -12241,6 +12241,21 @@ pub mod verif_hooks {
             STEP_LIMIT.with(|c| c.set(u64::MAX));
             panic!("sqlparser_verif: step budget exhausted");
         }
+        let (every, f) = SAMPLER.with(|c| c.get());
+        if every != 0 && n % every == 0 {
+            if let Some(f) = f {
+                f();
+            }
+        }
+    }
+
+    thread_local! {
+        static SAMPLER: Cell<(u64, Option<fn()>)> = const { Cell::new((0, None)) };
+    }
+
+    /// Call `f` every `every` cursor operations (0 = never); used to sample call stacks.
+    pub fn set_sampler(every: u64, f: Option<fn()>) {
+        SAMPLER.with(|c| c.set((every, f)));
     }
 
     /// Cursor operations counted since the last reset.
